@@ -36,9 +36,10 @@ type Proxy struct {
 }
 
 type command struct {
-	id  string
-	rpc *goatorepo.Rpc
-	err error
+	id     string
+	rpc    *goatorepo.Rpc
+	err    error
+	client *proxyClient // who reports err
 }
 
 type proxyClient struct {
@@ -113,7 +114,11 @@ func (p *Proxy) serveClients(ctx context.Context) {
 				p.forwardRpc(cmd.id, cmd.rpc)
 			} else if cmd.err != nil {
 				p.mutex.Lock()
-				delete(p.clients, cmd.id)
+				// Only forget the connection that failed: the peer may have
+				// re-attached under the same name in the meantime.
+				if p.clients[cmd.id] == cmd.client {
+					delete(p.clients, cmd.id)
+				}
 				p.mutex.Unlock()
 				if p.clientDisconnect != nil {
 					p.clientDisconnect(cmd.id, cmd.err)
@@ -217,7 +222,7 @@ func (c *proxyClient) writeLoop(ctx context.Context) error {
 // the proxy has been cancelled and nobody is listening any more.
 func (c *proxyClient) report(ctx context.Context, err error) {
 	select {
-	case c.toServer <- command{id: c.id, err: err}:
+	case c.toServer <- command{id: c.id, err: err, client: c}:
 	case <-ctx.Done():
 	}
 }
